@@ -1053,7 +1053,17 @@ class DocutilsRenderer(RendererProtocol):
         explicit = (token.info != "auto") and bool(token.children)
 
         # split the href up into parts
-        uri_parts = urlparse(href)
+        try:
+            uri_parts = urlparse(href)
+        except ValueError as exc:
+            # e.g. an unbalanced bracket in the netloc: "Invalid IPv6 URL"
+            self.create_warning(
+                f"Invalid inventory link {href!r}: {exc}",
+                MystWarnings.IREF_MISSING,
+                line=token_line(token, default=0),
+                append_to=self.current_node,
+            )
+            return
         target = uri_parts.fragment
         invs, domains, otypes = None, None, None
         if uri_parts.path:
